@@ -230,7 +230,13 @@ fn process_job(job: &Value, seed: u64, vectors: usize, ample_gas: usize) -> Vec<
     if let (Some(b), Some(ex)) = (&b, job.get("explicit").and_then(|x| x.as_array())) {
         if let Ok(runner) = SierraCasmRunner::new(program.clone(), Some(metadata_config(linear)), Default::default(), None) {
             for r in ex {
-                let fi = r["fn"].as_u64().unwrap() as usize - 1;
+                let fi = match r.get("fn_name").and_then(|n| n.as_str()) {
+                    Some(name) => match program.funcs.iter().position(|f| f.id.debug_name.as_ref().map(|d| d.ends_with(name)).unwrap_or(false)) {
+                        Some(i) => i,
+                        None => continue,
+                    },
+                    None => r["fn"].as_u64().unwrap() as usize - 1,
+                };
                 let Some(func) = program.funcs.get(fi) else { continue };
                 let args: Vec<BigInt> = r["args"].as_array().unwrap().iter().map(|a| a.as_str().unwrap().parse::<BigInt>().unwrap()).collect();
                 let felts: Vec<Felt252> = args.iter().map(felt_of).collect();
